@@ -28,6 +28,66 @@ theorem atPy_nat {α} (l : List α) (k : Nat) : atPy l (k : Int) = l[k]? := by
 theorem setPy_nat {α} (l : List α) (k : Nat) (v : α) : setPy l (k : Int) v = l.set k v := by
   simp [setPy, posPy_nat]
 
+theorem normalizeAxis1_some (axis : Int) (n k : Nat) (h : normalizeAxis1 axis n = some k) :
+    k < n ∧ posPy n axis = some k := by
+  unfold normalizeAxis1 at h
+  split at h
+  · simp at h
+  · rename_i hr
+    split at h
+    · rename_i hneg
+      simp only [Option.some.injEq] at h
+      subst h
+      refine ⟨by omega, ?_⟩
+      rw [posPy_neg n axis hneg (by omega)]
+    · rename_i hneg
+      simp only [Option.some.injEq] at h
+      subst h
+      refine ⟨by omega, ?_⟩
+      have : ¬ axis < 0 := hneg
+      simp [posPy, this]
+
+theorem normalizeAxis1_none (axis : Int) (n : Nat) (h : axis < -(n : Int) ∨ (n : Int) ≤ axis) :
+    normalizeAxis1 axis n = none := by
+  simp [normalizeAxis1, h]
+
+theorem normalizeAxis1_nat (k n : Nat) (h : k < n) : normalizeAxis1 (k : Int) n = some k := by
+  unfold normalizeAxis1
+  have h1 : ¬ ((k : Int) < -(n : Int) ∨ (n : Int) ≤ (k : Int)) := by omega
+  have h2 : ¬ ((k : Int) < 0) := by omega
+  rw [if_neg h1, if_neg h2]
+  simp
+
+theorem normAxis_nat (k n : Nat) : normAxis (k : Int) n = (k : Int) := by
+  have : ¬ ((k : Int) < 0) := by omega
+  simp [normAxis, this]
+
+/-- on an accepted axis the unchecked normalisation of the repaired index functions agrees with `normalize_axis` -/
+theorem normAxis_of_normalizeAxis1 (axis : Int) (n k : Nat) (h : normalizeAxis1 axis n = some k) :
+    normAxis axis n = (k : Int) := by
+  unfold normalizeAxis1 at h
+  split at h
+  · simp at h
+  · split at h
+    · rename_i hneg
+      simp only [Option.some.injEq] at h
+      subst h
+      simp only [normAxis, hneg, if_true]
+      omega
+    · rename_i hneg
+      simp only [Option.some.injEq] at h
+      subst h
+      simp only [normAxis, hneg, if_false]
+      omega
+
+theorem atPy_of_normalizeAxis1 {α} (l : List α) (axis : Int) (k : Nat) (h : normalizeAxis1 axis l.length = some k) :
+    atPy l axis = l[k]? := by
+  simp [atPy, (normalizeAxis1_some axis _ k h).2]
+
+theorem setPy_of_normalizeAxis1 {α} (l : List α) (axis : Int) (k : Nat) (v : α) (h : normalizeAxis1 axis l.length = some k) :
+    setPy l axis v = l.set k v := by
+  simp [setPy, (normalizeAxis1_some axis _ k h).2]
+
 /-- `mapAt` at loop offset `i` with a non-negative axis `i + k` touches exactly position `k` -/
 theorem mapAt_offset (f : Nat → Nat) (i k : Nat) (d : List Nat) :
     mapAt f ((i + k : Nat) : Int) i d = match d[k]? with | some x => d.set k (f x) | none => d := by
